@@ -235,16 +235,439 @@ Qed.
 (* session id: absent (length 0) or 1..32 bytes *)
 Definition wf_sid (s : option slice) : Prop := match s with None => True | Some s => 1 <= slen s <= 32 end.
 Lemma run_sid s rest o : wf_sid s ->
-  exists s', run (let* sidlen := Vrfy be_u8 (fun n => n <=? 32) in cond (0 <? sidlen) (Take sidlen))
-                 (mkS o (enc_sid s ++ rest)) = Ok (mkS (o + lenN (enc_sid s)) rest) s' /\ so s' = so s.
+  exists s', so s' = so s /\ forall B (K : option slice -> P B),
+    run (let* sidlen := Vrfy be_u8 (fun n => n <=? 32) in let* sid := cond (0 <? sidlen) (Take sidlen) in K sid)
+        (mkS o (enc_sid s ++ rest)) = run (K s') (mkS (o + lenN (enc_sid s)) rest).
 Proof.
-  intros Hs. rewrite run_bind, run_vrfy. destruct s as [s|]; cbn [enc_sid wf_sid] in *.
-  - unfold vec8. rewrite <- app_assoc, run_u8_enc by (unfold slen in Hs; lia).
+  intros Hs. destruct s as [s|]; cbn [enc_sid wf_sid] in *.
+  - exists (Some (mkS (o + 1) (bytes s))). split; [reflexivity|]. intros B K.
+    rewrite run_bind, run_vrfy. unfold vec8. rewrite <- app_assoc, run_u8_enc by (unfold slen in Hs; lia).
     destruct (N.leb_spec (lenN (bytes s)) 32); [|unfold slen in Hs; lia].
     unfold cond. destruct (N.ltb_spec 0 (lenN (bytes s))); [|unfold slen in Hs; lia].
-    unfold pmap. rewrite run_bind, run_take_n by reflexivity. rewrite run_ret.
-    eexists. split; [apply f_equal2; [f_equal; solve_off | reflexivity] | reflexivity].
-  - rewrite run_u8_enc by lia. cbn [N.leb]. change (0 <=? 32) with true. cbv iota.
-    unfold cond. change (0 <? 0) with false. cbv iota. rewrite run_ret.
-    exists None. split; [f_equal; f_equal; solve_off | reflexivity].
+    unfold pmap. rewrite !run_bind, run_take_n by reflexivity. rewrite run_ret.
+    f_equal. f_equal. solve_off.
+  - exists None. split; [reflexivity|]. intros B K.
+    rewrite run_bind, run_vrfy, run_u8_enc by lia. change (0 <=? 32) with true. cbv iota.
+    unfold cond. change (0 <? 0) with false. cbv iota. rewrite run_bind, run_ret.
+    first [reflexivity | f_equal; f_equal; solve_off].
+Qed.
+
+(* ---- hello messages ---- *)
+Definition wf_optext (e : option slice) : Prop := forall s, e = Some s -> slen s < 65536.
+Definition wf_ch (c : ClientHelloC) : Prop :=
+  ch_version c < 65536 /\ slen (ch_random c) = 32 /\ wf_sid (ch_sid c) /\
+  Forall (fun v => v < 65536) (ch_ciphers c) /\ 2 * lenN (ch_ciphers c) < 65536 /\
+  Forall (fun v => v < 256) (ch_comp c) /\ lenN (ch_comp c) < 256 /\ wf_optext (ch_ext c).
+
+Lemma client_hello_rt c o : wf_ch c ->
+  exists r v', run parse_tls_handshake_client_hello (mkS o (enc_client_hello c)) = Ok r v' /\ strip_ch v' = strip_ch c.
+Proof.
+  intros [Hv [Hr [Hs [Hc [Hcl [Hco [Hcol He]]]]]]].
+  unfold parse_tls_handshake_client_hello, enc_client_hello, vec16, vec8. repeat rewrite <- app_assoc.
+  rt_step. rewrite run_bind, run_take_n by (unfold slen in Hr; exact Hr).
+  destruct (run_sid (ch_sid c) (u16 (lenN (cat u16 (ch_ciphers c))) ++ cat u16 (ch_ciphers c) ++
+                                 u8 (lenN (cat u8 (ch_comp c))) ++ cat u8 (ch_comp c) ++ enc_optext (ch_ext c))
+                    (o + 2 + 32) Hs) as [s' [Hss Es]].
+  rewrite Es. clear Es.
+  rewrite run_bind, run_u16_enc by (rewrite lenN_cat_u16; lia).
+  rewrite run_bind, run_cipher_suites by exact Hc.
+  rewrite run_bind, run_u8_enc by (rewrite lenN_cat_u8; lia).
+  rewrite run_bind, run_compressions by exact Hco.
+  rewrite run_bind.
+  match goal with |- context [run opt_ext (mkS ?o' _)] => destruct (run_opt_ext (ch_ext c) o' He) as [e' [Ee Hee]] end.
+  rewrite Ee, run_ret. eexists. eexists. split; [reflexivity|].
+  unfold strip_ch; cbn [ch_version ch_random ch_sid ch_ciphers ch_comp ch_ext]. rewrite Hss, Hee. reflexivity.
+Qed.
+
+Definition wf_sh (c : ServerHelloC) : Prop :=
+  In (sh_version c) [768; 769; 770; 771] /\ slen (sh_random c) = 32 /\ wf_sid (sh_sid c) /\
+  sh_cipher c < 65536 /\ sh_comp c < 256 /\ wf_optext (sh_ext c) /\ (sh_version c = 768 -> sh_ext c = None).
+
+Lemma server_hello_v12_rt c o has_ext : sh_version c < 65536 -> slen (sh_random c) = 32 -> wf_sid (sh_sid c) ->
+  sh_cipher c < 65536 -> sh_comp c < 256 -> wf_optext (sh_ext c) -> (has_ext = false -> sh_ext c = None) ->
+  exists r v', run (parse_tls_server_hello_tlsv12 has_ext) (mkS o (enc_server_hello c)) = Ok r v' /\ strip_sh v' = strip_sh c.
+Proof.
+  intros Hv Hr Hs Hc Hco He Hx.
+  unfold parse_tls_server_hello_tlsv12, enc_server_hello. repeat rewrite <- app_assoc.
+  rt_step. rewrite run_bind, run_take_n by (unfold slen in Hr; exact Hr).
+  destruct (run_sid (sh_sid c) (u16 (sh_cipher c) ++ u8 (sh_comp c) ++ enc_optext (sh_ext c)) (o + 2 + 32) Hs) as [s' [Hss Es]].
+  rewrite Es. clear Es.
+  do 2 rt_step. rewrite run_bind. destruct has_ext.
+  - match goal with |- context [run opt_ext (mkS ?o' _)] => destruct (run_opt_ext (sh_ext c) o' He) as [e' [Ee Hee]] end.
+    rewrite Ee, run_ret. eexists. eexists. split; [reflexivity|].
+    unfold strip_sh; cbn [sh_version sh_random sh_sid sh_cipher sh_comp sh_ext]. rewrite Hss, Hee. reflexivity.
+  - rewrite (Hx eq_refl). cbn [enc_optext]. rewrite !run_ret. eexists. eexists. split; [reflexivity|].
+    unfold strip_sh; cbn [sh_version sh_random sh_sid sh_cipher sh_comp sh_ext]. rewrite Hss, (Hx eq_refl). reflexivity.
+Qed.
+
+Lemma peek_version v body o : v < 65536 ->
+  run (Peek be_u16) (mkS o (u16 v ++ body)) = Ok (mkS o (u16 v ++ body)) v.
+Proof. intros H. rewrite run_peek, run_u16_enc by exact H. reflexivity. Qed.
+
+Section Bodies2.
+  Hypothesis Ht : hs_tables_std = true.
+  Let Htab : hs_table = hs_table_expected := proj1 (hs_tables_are Ht).
+  Let Hshm : sh_msg_versions = sh_msg_expected := proj1 (proj2 (hs_tables_are Ht)).
+  Ltac start := intros o; unfold body_rt; rewrite Htab; cbn [hs_type enc_hs_body];
+                match goal with |- context [assoc_N ?k hs_table_expected] =>
+                  let r := eval vm_compute in (assoc_N k hs_table_expected) in
+                  change (assoc_N k hs_table_expected) with r end; cbn [hs_body].
+
+  Lemma body_client_hello c : wf_ch c -> body_rt (HClientHello c).
+  Proof.
+    intros Hw. start. unfold parse_tls_handshake_msg_client_hello, pmap. rewrite run_bind.
+    destruct (client_hello_rt c o Hw) as [r [v' [E Hs]]]. rewrite E, run_ret.
+    eexists. eexists. split; [reflexivity|]. cbn [strip_hs]. now rewrite Hs.
+  Qed.
+
+  Lemma body_server_hello c : wf_sh c -> body_rt (HServerHello c).
+  Proof.
+    intros [Hv [Hr [Hs [Hc [Hco [He Hx]]]]]]. start. unfold parse_tls_handshake_msg_server_hello.
+    assert (Hv16 : sh_version c < 65536) by (cbn [In] in Hv; lia).
+    unfold enc_server_hello at 1. rewrite run_bind, peek_version by exact Hv16. fold (enc_server_hello c).
+    rewrite Hshm.
+    assert (Hform : assoc_N (sh_version c) sh_msg_expected = Some (ShV12 (negb (sh_version c =? 768)))).
+    { cbn [In] in Hv. destruct Hv as [E|[E|[E|[E|[]]]]]; rewrite <- E; reflexivity. }
+    rewrite Hform. unfold parse_tls_handshake_msg_server_hello_tlsv12, pmap. rewrite run_bind.
+    destruct (server_hello_v12_rt c o (negb (sh_version c =? 768)) Hv16 Hr Hs Hc Hco He) as [r [v' [E Hss]]].
+    { intros Hn. apply Hx. apply Bool.negb_false_iff in Hn. now apply N.eqb_eq in Hn. }
+    rewrite E, run_ret. eexists. eexists. split; [reflexivity|]. cbn [strip_hs]. now rewrite Hss.
+  Qed.
+
+  Definition wf_sh13 (c : ServerHello13C) : Prop :=
+    sh13_version c = 32530 /\ slen (sh13_random c) = 32 /\ sh13_cipher c < 65536 /\ wf_optext (sh13_ext c).
+  Lemma body_server_hello13 c : wf_sh13 c -> body_rt (HServerHelloV13Draft18 c).
+  Proof.
+    intros [Hv [Hr [Hc He]]]. start. unfold parse_tls_handshake_msg_server_hello.
+    rewrite Hv. rewrite run_bind, peek_version by lia. rewrite Hshm.
+    change (assoc_N 32530 sh_msg_expected) with (Some ShV13Draft18). cbv iota.
+    unfold parse_tls_handshake_msg_server_hello_tlsv13draft18. repeat rewrite <- app_assoc.
+    rt_step. rewrite run_bind, run_take_n by (unfold slen in Hr; exact Hr). rt_step. rewrite run_bind.
+    match goal with |- context [run opt_ext (mkS ?o' _)] => destruct (run_opt_ext (sh13_ext c) o' He) as [e' [Ee Hee]] end.
+    rewrite Ee, run_ret. eexists. eexists. split; [reflexivity|].
+    cbn [strip_hs sh13_version sh13_random sh13_cipher sh13_ext]. rewrite Hee, Hv. reflexivity.
+  Qed.
+
+  Definition wf_hrr (c : HelloRetryC) : Prop := hrr_version c < 65536 /\ hrr_cipher c < 65536 /\ wf_optext (hrr_ext c).
+  Lemma body_hrr c : wf_hrr c -> body_rt (HHelloRetryRequest c).
+  Proof.
+    intros [Hv [Hc He]]. start. unfold parse_tls_handshake_msg_hello_retry_request. repeat rewrite <- app_assoc.
+    do 2 rt_step. rewrite run_bind.
+    match goal with |- context [run opt_ext (mkS ?o' _)] => destruct (run_opt_ext (hrr_ext c) o' He) as [e' [Ee Hee]] end.
+    rewrite Ee, run_ret. eexists. eexists. split; [reflexivity|].
+    cbn [strip_hs hrr_version hrr_cipher hrr_ext]. rewrite Hee. reflexivity.
+  Qed.
+End Bodies2.
+
+(* ---- Certificate and CertificateRequest ---- *)
+Lemma many0_cmpl_total A (p : P A) : progress p -> Safe p ->
+  forall i, exists r l, run (Many0 (Cmpl p)) i = Ok r l.
+Proof.
+  intros Hprog Hsafe i. rewrite run_many0. unfold many0_run.
+  assert (H : forall fuel j, slen j <= lenN fuel -> exists r l, many0_loop (fun k => run (Cmpl p) k) fuel j = Ok r l).
+  { induction fuel as [|c fuel IH]; intros j Hl; cbn [many0_loop]; rewrite run_cmpl;
+      pose proof (run_no_fail _ p j) as Hnf; pose proof (Hsafe j) as Hs;
+      destruct (run p j) as [r a| | |n| |] eqn:E; cbn [no_fail safe] in *; try contradiction; eauto.
+    - apply Hprog in E. cbn [lenN] in Hl. lia.
+    - pose proof (Hprog _ _ _ E) as Hp. destruct (N.eqb_spec (slen r) (slen j)); [lia|].
+      cbn [lenN] in Hl. destruct (IH r) as [r' [l' E']]; [lia|]. rewrite E'. eauto. }
+  apply H. unfold slen; lia.
+Qed.
+
+Lemma progress_length_data k : (0 < k)%nat -> progress (length_data (BeU k)).
+Proof. intros Hk. unfold length_data. apply progress_bind_l, progress_beu. exact Hk. Qed.
+
+Definition slice_eqv (a b : slice) : Prop := ss a = ss b.
+Lemma vec24_rt : roundtrips (length_data be_u24) (fun s : slice => vec24 (bytes s)) (fun s => slen s < 16777216) slice_eqv.
+Proof.
+  intros s rest o Hs. rewrite run_vec24 by exact Hs. eexists. split; [apply f_equal2; [f_equal; solve_off | reflexivity] | reflexivity].
+Qed.
+Lemma vec16_rt : roundtrips (length_data be_u16) (fun s : slice => vec16 (bytes s)) (fun s => slen s < 65536) slice_eqv.
+Proof.
+  intros s rest o Hs. rewrite run_vec16 by exact Hs. eexists. split; [apply f_equal2; [f_equal; solve_off | reflexivity] | reflexivity].
+Qed.
+Lemma vec24_ne : nonempty_enc (fun s : slice => vec24 (bytes s)) (fun s => slen s < 16777216).
+Proof. intros v _. cbv beta. rewrite lenN_vec24. lia. Qed.
+Lemma vec16_ne : nonempty_enc (fun s : slice => vec16 (bytes s)) (fun s => slen s < 65536).
+Proof. intros v _. cbv beta. rewrite lenN_vec16. lia. Qed.
+Lemma u16_ne : nonempty_enc u16 (fun v => v < 65536).
+Proof. intros v _. rewrite lenN_u16. lia. Qed.
+Lemma u16_rt : roundtrips be_u16 u16 (fun v => v < 65536) eq.
+Proof. intros v rest o Hv. rewrite run_u16_enc by exact Hv. eexists. split; [rewrite lenN_u16; reflexivity | reflexivity]. Qed.
+Lemma stops_length_data_nil k o : (0 < k)%nat -> stops (length_data (BeU k)) (mkS o []).
+Proof. intros Hk. unfold length_data. apply stops_beu_nil_gen. exact Hk. Qed.
+
+Lemma Forall2_slice_eqv_map l' l : Forall2 slice_eqv l' l -> map ss l' = map ss l.
+Proof. induction 1 as [|a b l' l H HF IH]; [reflexivity|]. cbn [map]. unfold slice_eqv in H. now rewrite H, IH. Qed.
+Lemma Forall2_eq A (l' l : list A) : Forall2 eq l' l -> l' = l.
+Proof. induction 1; congruence. Qed.
+
+Lemma run_count_u8 l rest o : Forall (fun v => v < 256) l ->
+  run (count_u8 (length l)) (mkS o (cat u8 l ++ rest)) = Ok (mkS (o + lenN l) rest) l.
+Proof.
+  revert o; induction l as [|v l IH]; intros o H; cbn [length count_u8].
+  - rewrite run_ret. cbn [cat map concat app lenN]. f_equal. f_equal. lia.
+  - inversion H as [|? ? Hv Hl]; subst. unfold cat. cbn [map concat]. rewrite <- app_assoc.
+    rt_step. fold (cat u8 l). rewrite run_bind, IH by exact Hl. rewrite run_ret. cbn [lenN]. f_equal. f_equal. lia.
+Qed.
+Lemma run_length_count l rest o : Forall (fun v => v < 256) l -> lenN l < 256 ->
+  run length_count_u8_u8 (mkS o (vec8 (cat u8 l) ++ rest)) = Ok (mkS (o + 1 + lenN l) rest) l.
+Proof.
+  intros H Hl. unfold length_count_u8_u8, vec8. rewrite <- app_assoc. rewrite lenN_cat_u8. rt_step.
+  rewrite (lenN_length l) at 1. rewrite Nat2N.id. apply run_count_u8. exact H.
+Qed.
+
+Lemma take_all_plain o b : run (Take (lenN b)) (mkS o b) = Ok (mkS (o + lenN b) []) (mkS o b).
+Proof. pose proof (run_take_n (lenN b) b o [] eq_refl) as H. rewrite app_nil_r in H. exact H. Qed.
+
+Definition wf_certs (l : list slice) : Prop :=
+  Forall (fun s => slen s < 16777216) l /\ lenN (cat (fun s => vec24 (bytes s)) l) < 16777216.
+Lemma certificate_rt l o : wf_certs l ->
+  exists r l', run parse_tls_certificate (mkS o (vec24 (cat (fun s => vec24 (bytes s)) l))) = Ok r l' /\ map ss l' = map ss l.
+Proof.
+  intros [Hs Hl]. unfold parse_tls_certificate, map_parser.
+  set (body := cat (fun s => vec24 (bytes s)) l) in *. unfold vec24 at 1.
+  rewrite run_bind, run_u24_enc by exact Hl. rewrite run_bind, take_all_plain, run_on. unfold parse_certs.
+  destruct (many0_cmpl_rt (length_data be_u24) (fun s : slice => vec24 (bytes s)) _ slice_eqv vec24_rt
+              vec24_ne l (o + 3) []) as [vs' [Ev HF]].
+  - intros s Hin. rewrite Forall_forall in Hs. exact (Hs s Hin).
+  - apply stops_length_data_nil. lia.
+  - unfold encs in Ev. rewrite app_nil_r in Ev. unfold body, cat. rewrite Ev.
+    eexists. eexists. split; [reflexivity | apply Forall2_slice_eqv_map; exact HF].
+Qed.
+
+Definition wf_ca (l : list slice) : Prop :=
+  Forall (fun s => slen s < 65536) l /\ lenN (cat (fun s => vec16 (bytes s)) l) < 65536.
+Lemma ca_list_rt l rest o : wf_ca l ->
+  exists l', run ca_list (mkS o (vec16 (cat (fun s => vec16 (bytes s)) l) ++ rest)) =
+               Ok (mkS (o + 2 + lenN (cat (fun s => vec16 (bytes s)) l)) rest) l' /\ map ss l' = map ss l.
+Proof.
+  intros [Hs Hl]. unfold ca_list, map_parser.
+  set (body := cat (fun s => vec16 (bytes s)) l) in *. unfold vec16 at 1. rewrite <- app_assoc.
+  rt_step. rewrite run_bind, run_take_n by reflexivity. rewrite run_on.
+  destruct (many0_cmpl_rt (length_data be_u16) (fun s : slice => vec16 (bytes s)) _ slice_eqv vec16_rt
+              vec16_ne l (o + 2) []) as [vs' [Ev HF]].
+  - intros s Hin. rewrite Forall_forall in Hs. exact (Hs s Hin).
+  - apply stops_length_data_nil. lia.
+  - unfold encs in Ev. rewrite app_nil_r in Ev. unfold body, cat. rewrite Ev.
+    eexists. split; [reflexivity | apply Forall2_slice_eqv_map; exact HF].
+Qed.
+
+Definition wf_cr (c : CertRequestC) : Prop :=
+  Forall (fun v => v < 256) (cr_types c) /\ lenN (cr_types c) < 256 /\ wf_ca (cr_ca c) /\
+  match cr_sigalgs c with Some l => Forall (fun v => v < 65536) l /\ 2 * lenN l < 65536 | None => True end.
+
+Lemma cr_full_rt types sigs cas o :
+  Forall (fun v => v < 256) types -> lenN types < 256 -> wf_ca cas ->
+  Forall (fun v => v < 65536) sigs -> 2 * lenN sigs < 65536 ->
+  exists r c', run parse_certrequest_full (mkS o (enc_cert_request (mkCR types (Some sigs) cas))) = Ok r c' /\
+               cr_types c' = types /\ cr_sigalgs c' = Some sigs /\ map ss (cr_ca c') = map ss cas.
+Proof.
+  intros Ht Htl Hca Hs Hsl. unfold parse_certrequest_full, enc_cert_request. cbn [cr_types cr_sigalgs cr_ca].
+  repeat rewrite <- app_assoc.
+  rewrite run_bind, run_length_count by assumption.
+  unfold vec16 at 1. rewrite <- app_assoc. rewrite run_bind, run_u16_enc by (rewrite lenN_cat_u16; lia).
+  unfold map_parser. rewrite !run_bind, run_take_n by reflexivity. rewrite run_on.
+  destruct (many0_cmpl_rt be_u16 u16 _ eq u16_rt u16_ne sigs (o + 1 + lenN types + 2) []) as [vs' [Ev HF]].
+  - intros v Hin. rewrite Forall_forall in Hs. exact (Hs v Hin).
+  - apply stops_beu_nil_plain. lia.
+  - unfold encs in Ev. rewrite app_nil_r in Ev. unfold cat at 1. rewrite Ev.
+    apply Forall2_eq in HF. subst vs'.
+    pose proof (ca_list_rt cas [] (o + 1 + lenN types + 2 + lenN (cat u16 sigs)) Hca) as [l' [Ec Hl']].
+    rewrite app_nil_r in Ec.
+    eexists. eexists. split; [rewrite run_bind, Ec, run_ret; reflexivity|]. cbn [cr_types cr_sigalgs cr_ca]. auto.
+Qed.
+
+Lemma cr_nosig_rt types cas o :
+  Forall (fun v => v < 256) types -> lenN types < 256 -> wf_ca cas ->
+  exists r c', run parse_certrequest_nosigalg (mkS o (enc_cert_request (mkCR types None cas))) = Ok r c' /\
+               cr_types c' = types /\ cr_sigalgs c' = None /\ map ss (cr_ca c') = map ss cas.
+Proof.
+  intros Ht Htl Hca. unfold parse_certrequest_nosigalg, enc_cert_request. cbn [cr_types cr_sigalgs cr_ca app].
+  rewrite run_bind, run_length_count by assumption.
+  pose proof (ca_list_rt cas [] (o + 1 + lenN types) Hca) as [l' [Ec Hl']].
+  rewrite app_nil_r in Ec. rewrite run_bind, Ec, run_ret.
+  eexists. eexists. split; [reflexivity|]. cbn [cr_types cr_sigalgs cr_ca]. auto.
+Qed.
+
+(* on the legacy (no signature algorithms) encoding the TLS 1.2 form runs out of input: Incomplete *)
+Lemma cr_full_on_nosig types cas o :
+  Forall (fun v => v < 256) types -> lenN types < 256 -> wf_ca cas ->
+  exists n, run parse_certrequest_full (mkS o (enc_cert_request (mkCR types None cas))) = Incomplete n.
+Proof.
+  intros Ht Htl [Hs Hl]. unfold parse_certrequest_full, enc_cert_request. cbn [cr_types cr_sigalgs cr_ca app].
+  rewrite run_bind, run_length_count by assumption.
+  set (body := cat (fun s => vec16 (bytes s)) cas) in *. unfold vec16.
+  pose proof (run_u16_enc (lenN body) (o + 1 + lenN types) body Hl) as E.
+  rewrite run_bind, E. clear E.
+  unfold map_parser. rewrite !run_bind, take_all_plain, run_on.
+  destruct (many0_cmpl_total N (BeU 2) (progress_beu 2 ltac:(lia)) (Safe_beu 2) (mkS (o + 1 + lenN types + 2) body)) as [r [l E]].
+  unfold be_u16 at 1. rewrite E.
+  unfold ca_list. rewrite !run_bind. unfold be_u16. rewrite run_beu. unfold slen; cbn [bytes lenN].
+  destruct (N.leb_spec (N.of_nat 2) 0); [lia|]. eauto.
+Qed.
+
+Lemma cert_request_rt c o : wf_cr c ->
+  exists r c', run parse_tls_handshake_certificaterequest (mkS o (enc_cert_request c)) = Ok r c' /\
+               cr_types c' = cr_types c /\ cr_sigalgs c' = cr_sigalgs c /\ map ss (cr_ca c') = map ss (cr_ca c).
+Proof.
+  destruct c as [types sigs cas]. unfold wf_cr; cbn [cr_types cr_sigalgs cr_ca]. intros [Ht [Htl [Hca Hsig]]].
+  unfold parse_tls_handshake_certificaterequest. rewrite run_alt, run_cmpl. destruct sigs as [sigs|].
+  - destruct Hsig as [Hs Hsl]. destruct (cr_full_rt types sigs cas o Ht Htl Hca Hs Hsl) as [r [c' [E H]]].
+    rewrite E. eauto.
+  - destruct (cr_full_on_nosig types cas o Ht Htl Hca) as [n E]. rewrite E. rewrite run_cmpl.
+    destruct (cr_nosig_rt types cas o Ht Htl Hca) as [r [c' [E' H]]]. rewrite E'. eauto.
+Qed.
+
+Section Bodies3.
+  Hypothesis Ht : hs_tables_std = true.
+  Let Htab : hs_table = hs_table_expected := proj1 (hs_tables_are Ht).
+  Ltac start := intros o; unfold body_rt; rewrite Htab; cbn [hs_type enc_hs_body];
+                match goal with |- context [assoc_N ?k hs_table_expected] =>
+                  let r := eval vm_compute in (assoc_N k hs_table_expected) in
+                  change (assoc_N k hs_table_expected) with r end; cbn [hs_body].
+
+  Lemma body_certificate l : wf_certs l -> body_rt (HCertificate l).
+  Proof.
+    intros Hw. start. unfold parse_tls_handshake_msg_certificate, pmap. rewrite run_bind.
+    destruct (certificate_rt l o Hw) as [r [l' [E Hs]]]. rewrite E, run_ret.
+    eexists. eexists. split; [reflexivity|]. cbn [strip_hs]. now rewrite Hs.
+  Qed.
+  Lemma body_cert_request c : wf_cr c -> body_rt (HCertificateRequest c).
+  Proof.
+    intros Hw. start. unfold parse_tls_handshake_msg_certificaterequest, pmap. rewrite run_bind.
+    destruct (cert_request_rt c o Hw) as [r [c' [E [H1 [H2 H3]]]]]. rewrite E, run_ret.
+    eexists. eexists. split; [reflexivity|]. cbn [strip_hs]. now rewrite H1, H2, H3.
+  Qed.
+
+  (* well-formedness of a handshake value: every length fits its length field, every integer its width,
+     the fixed-size fields have their size, and the version selects the ServerHello form *)
+  Definition wf_hs (h : TlsMessageHandshake) : Prop :=
+    lenN (enc_hs_body h) < 16777216 /\
+    match h with
+    | HHelloRequest | HEndOfEarlyData => True
+    | HClientHello c => wf_ch c
+    | HServerHello c => wf_sh c
+    | HServerHelloV13Draft18 c => wf_sh13 c
+    | HNewSessionTicket hint _ => hint < 4294967296
+    | HHelloRetryRequest c => wf_hrr c
+    | HCertificate l => wf_certs l
+    | HServerKeyExchange _ | HServerDone _ | HCertificateVerify _ | HFinished _ => True
+    | HClientKeyExchange c => match c with CkeUnknown _ => True | _ => False end
+    | HCertificateRequest c => wf_cr c
+    | HCertificateStatus t b => t < 256 /\ slen b < 16777216
+    | HNextProtocol a b => slen a < 256 /\ slen b < 256
+    | HKeyUpdate v => v < 256
+    end.
+
+  Lemma all_bodies h : wf_hs h -> body_rt h.
+  Proof.
+    intros [_ Hw]. destruct h; cbn [wf_hs] in Hw.
+    - apply body_hello_request; exact Ht.
+    - apply body_client_hello; assumption.
+    - apply body_server_hello; assumption.
+    - apply body_server_hello13; assumption.
+    - apply body_nst; assumption.
+    - apply body_end_of_early_data; exact Ht.
+    - apply body_hrr; assumption.
+    - apply body_certificate; assumption.
+    - apply body_ske; exact Ht.
+    - apply body_cert_request; assumption.
+    - apply body_serverdone; exact Ht.
+    - apply body_certverify; exact Ht.
+    - destruct c; try contradiction. apply body_cke; exact Ht.
+    - apply body_finished; exact Ht.
+    - destruct Hw. apply body_cert_status; assumption.
+    - destruct Hw. apply body_next_protocol; assumption.
+    - apply body_key_update; assumption.
+  Qed.
+
+  Theorem handshake_roundtrip v rest o : wf_hs v ->
+    exists m', run parse_tls_message_handshake (mkS o (enc_handshake v ++ rest)) =
+                 Ok (mkS (o + lenN (enc_handshake v)) rest) m' /\ msg_eqv m' (MHandshake v).
+  Proof. intros Hw. apply message_of_body; [exact (proj1 Hw) | apply all_bodies; exact Hw]. Qed.
+
+  (* unknown handshake types are rejected *)
+  Theorem unknown_type_rejected ht body rest o : ht < 256 -> lenN body < 16777216 ->
+    assoc_N ht hs_table_expected = None ->
+    run parse_tls_message_handshake (mkS o (u8 ht ++ u24 (lenN body) ++ body ++ rest)) =
+      Err (mkS (o + 4 + lenN body) rest) KSwitch.
+  Proof. intros H1 H2 H3. rewrite handshake_char by assumption. rewrite Htab, H3. reflexivity. Qed.
+End Bodies3.
+
+(* as instances of the C03 interface *)
+Definition wf_hs_msg (Ht : hs_tables_std = true) (m : TlsMessage) : Prop :=
+  match m with MHandshake h => wf_hs h | _ => False end.
+Lemma handshake_msgs_rt Ht : roundtrips parse_tls_message_handshake enc_msg (wf_hs_msg Ht) msg_eqv.
+Proof.
+  intros m rest o Hw. destruct m; cbn [wf_hs_msg] in Hw; try contradiction. cbn [enc_msg].
+  exact (handshake_roundtrip Ht h rest o Hw).
+Qed.
+Lemma handshake_msgs_ne Ht : nonempty_enc enc_msg (wf_hs_msg Ht).
+Proof.
+  intros m Hw. destruct m; cbn [wf_hs_msg] in Hw; try contradiction. cbn [enc_msg]. unfold enc_handshake.
+  rewrite lenN_app, lenN_u8. lia.
+Qed.
+
+(* ---- structurally invalid bodies are rejected, whatever the rest of the message is ---- *)
+Theorem reject_sid_gt_32 ver random n rest o : ver < 65536 -> lenN random = 32 -> 32 < n < 256 ->
+  run parse_tls_handshake_client_hello (mkS o (u16 ver ++ random ++ u8 n ++ rest)) =
+    Err (mkS (o + 2 + 32) (u8 n ++ rest)) KVerify.
+Proof.
+  intros Hv Hr Hn. unfold parse_tls_handshake_client_hello. rt_step.
+  rewrite run_bind, run_take_n by exact Hr. rewrite run_bind, run_vrfy, run_u8_enc by lia.
+  destruct (N.leb_spec n 32); [lia | reflexivity].
+Qed.
+Theorem reject_sid_gt_32_server ver random n rest o has_ext : ver < 65536 -> lenN random = 32 -> 32 < n < 256 ->
+  run (parse_tls_server_hello_tlsv12 has_ext) (mkS o (u16 ver ++ random ++ u8 n ++ rest)) =
+    Err (mkS (o + 2 + 32) (u8 n ++ rest)) KVerify.
+Proof.
+  intros Hv Hr Hn. unfold parse_tls_server_hello_tlsv12. rt_step.
+  rewrite run_bind, run_take_n by exact Hr. rewrite run_bind, run_vrfy, run_u8_enc by lia.
+  destruct (N.leb_spec n 32); [lia | reflexivity].
+Qed.
+
+(* cipher-suite list: odd length, or longer than what is left of the body *)
+Theorem reject_cipher_len len i : len <> 0 -> (len mod 2 = 1 \/ slen i < len) ->
+  run (parse_cipher_suites len) i = Err i KLengthValue.
+Proof.
+  intros H0 Hbad. unfold parse_cipher_suites. destruct (N.eqb_spec len 0); [contradiction|].
+  rewrite run_bind, run_geti. cbv beta iota. rewrite has_len_spec. fold (slen i).
+  destruct Hbad as [Ho|Hs].
+  - rewrite Ho. reflexivity.
+  - destruct (len mod 2 =? 1); [reflexivity|]. cbn [orb].
+    destruct (N.leb_spec len (slen i)); [lia | reflexivity].
+Qed.
+Theorem reject_comp_len len i : len <> 0 -> slen i < len ->
+  run (parse_compressions_algs len) i = Err i KLengthValue.
+Proof.
+  intros H0 Hs. unfold parse_compressions_algs. destruct (N.eqb_spec len 0); [contradiction|].
+  rewrite run_bind, run_geti. cbv beta iota. rewrite has_len_spec. fold (slen i).
+  destruct (N.leb_spec len (slen i)); [lia | reflexivity].
+Qed.
+Theorem reject_ticket_lt_4 len i : len < 4 ->
+  run (parse_tls_handshake_msg_newsessionticket len) i = Err i KVerify.
+Proof. intros H. unfold parse_tls_handshake_msg_newsessionticket. destruct (N.ltb_spec len 4); [reflexivity | lia]. Qed.
+
+(* ServerHello with a legacy version outside the table *)
+Theorem reject_server_hello_version v body o : hs_tables_std = true -> v < 65536 ->
+  assoc_N v sh_msg_expected = None ->
+  run parse_tls_handshake_msg_server_hello (mkS o (u16 v ++ body)) = Err (mkS o (u16 v ++ body)) KTag.
+Proof.
+  intros Ht Hv Hn. unfold parse_tls_handshake_msg_server_hello. rewrite run_bind, peek_version by exact Hv.
+  rewrite (proj1 (proj2 (hs_tables_are Ht))), Hn. reflexivity.
+Qed.
+
+(* a certificate list or status blob longer than the body is never a value *)
+Theorem reject_cert_list_overlong n body o : n < 16777216 -> lenN body < n ->
+  run parse_tls_certificate (mkS o (u24 n ++ body)) = Incomplete (Size (n - lenN body)).
+Proof.
+  intros Hn Hb. unfold parse_tls_certificate, map_parser. rt_step. rewrite !run_bind, run_take.
+  unfold slen; cbn [bytes]. destruct (N.leb_spec n (lenN body)); [lia|]. rewrite mk_needed_pos by lia. reflexivity.
+Qed.
+Theorem reject_status_blob_overlong t n body o : t < 256 -> n < 16777216 -> lenN body < n ->
+  run parse_tls_handshake_certificatestatus (mkS o (u8 t ++ u24 n ++ body)) = Incomplete (Size (n - lenN body)).
+Proof.
+  intros Ht Hn Hb. unfold parse_tls_handshake_certificatestatus, length_data. rt_step. rewrite run_bind. rt_step.
+  rewrite run_take. unfold slen; cbn [bytes]. destruct (N.leb_spec n (lenN body)); [lia|]. rewrite mk_needed_pos by lia. reflexivity.
 Qed.
